@@ -552,7 +552,7 @@ MalformedEv ==
               /\ abs' = Put(abs, e, InitSt)
               /\ steps' = Put(steps, e, 0)
               /\ mode' = Put(mode, e, [fo |-> Ev.modes.fo, fa |-> Ev.modes.fa, f1 |-> Ev.modes.f1,
-                                      low |-> Ev.adv.low, high |-> Ev.adv.high])
+                                      low |-> Ev.adv.low, high |-> Ev.adv.high, perm |-> PermOfCreate(Ev)])
               /\ ndec' = Put(ndec, e, 0)
               /\ paidVal' = Put(paidVal, e, {})
               /\ paidDisc' = Put(paidDisc, e, {})
